@@ -927,6 +927,12 @@ def _q_linear_obj():
         ("source_plane_data_grid", mapper_only(lambda o: np.array(o.source_plane_data_grid))),
         ("mesh_neighbors", mapper_only(lambda o: np.array(o.source_plane_mesh_grid.neighbors))),
         ("over_sampled_grid", mapper_only(lambda o: o.over_sampler.over_sampled_grid)),
+        # mesh-level quantities (Delaunay meshes; on other meshes the attribute error is the value for obj and twin alike)
+        ("mesh.voronoi_pixel_areas", mapper_only(lambda o: o.source_plane_mesh_grid.voronoi_pixel_areas)),
+        ("mesh.areas_for_magnification", mapper_only(lambda o: o.source_plane_mesh_grid.areas_for_magnification)),
+        ("mesh.voronoi_pixel_areas_for_split", mapper_only(lambda o: o.source_plane_mesh_grid.voronoi_pixel_areas_for_split)),
+        ("mesh.split_cross", mapper_only(lambda o: o.source_plane_mesh_grid.split_cross)),
+        ("mesh.edge_pixel_list", mapper_only(lambda o: o.source_plane_mesh_grid.edge_pixel_list)),
     ]
 
 
@@ -1153,9 +1159,14 @@ def inversion_machine(run):
             self.op("read_inv", k=k, q=q2)
             self.op("read_inv", k=k, q=q3)
 
-        @rule(j=st.integers(0, 2), q=st.integers(0, 13))
+        @rule(j=st.integers(0, 2), q=st.integers(0, 18))
         def read_obj(self, j, q):
             self.op("read_obj", j=j, q=q)
+
+        @rule(j=st.integers(0, 2), q1=st.integers(13, 18), q2=st.integers(13, 18))
+        def read_mesh_two(self, j, q1, q2):
+            self.op("read_obj", j=j, q=q1)
+            self.op("read_obj", j=j, q=q2)
 
         @rule(j=st.integers(0, 2), values=st.lists(gens.reals(-2, 5), min_size=3, max_size=8), use_mask=st.booleans(), bits=st.integers(0, 2 ** 30 - 1))
         def valued(self, j, values, use_mask, bits):
